@@ -403,15 +403,16 @@ def run(tier="quick"):
     nw = check_send(chk, prog, send)
     # receive path
     recv = prog.need("spif_socket_recv")
-    readers = []
-    for c in X.calls_in(recv.body):
-        g = prog.fn(X.callee_name(c) or "")
-        if g is not None and g.unit.name == "str.c":
-            readers.append(g)
-            for c2 in X.calls_in(g.body):
-                h = prog.fn(X.callee_name(c2) or "")
-                if h is not None and h.unit.name == "str.c" and any(X.callee_name(c3) == "read" for c3 in X.calls_in(h.body)):
-                    readers.append(h)
+    # the functions of str.c that recv reaches (however many helpers deep) and that call read() themselves
+    readers, seen_r, work_r = [], set(), [recv]
+    while work_r:
+        cur = work_r.pop()
+        for c in X.calls_in(cur.body):
+            g = prog.fn(X.callee_name(c) or "")
+            if g is not None and g.body is not None and g.unit.name == "str.c" and g.name not in seen_r:
+                seen_r.add(g.name)
+                readers.append(g)
+                work_r.append(g)
     readers = [g for g in readers if any(X.callee_name(c) == "read" for c in X.calls_in(g.body))]
     for g in readers:
         su = stale.stale_uses(g, NORETURN)
